@@ -20,6 +20,12 @@ CLAIMED = {
     'C18': ('exploration', 'self-reference monitor: canonical deep dump of every compiled code object compared with the first dump of the same input across repeats, interleavings, worker processes, concurrent goroutines (race detector) and two Go toolchains',
             'Every source of the corpus is compiled >=12 times (64+ in thorough) in three processes interleaved with other compilations and concurrently from 16 goroutines under -race while contexts run; all dumps of one input must be byte-identical.',
             'Only map orders that the runtime actually produced are covered.', '6/C18'),
+    'C04': ('exploration', 'reference-model monitor: bound-parameter observations vs CPython and an independent binding model; identity monitor on arguments recorded by harness-registered Go callables (mode gocall)',
+            'The exhaustive signature x call-shape product is executed on the real VM and compared with CPython (judged only where an independent binding model agrees); Go callables of the four supported signatures record what they receive as module functions, bound methods and through the class, from Python source and via py.Call.',
+            'CPython 3.11 binding equals 3.4 binding on the generated fragment; product bounded as stated in the evidence rule.', '6/C04'),
+    'C16': ('exploration', 'reference-model monitor: defining-class names observed per attribute access vs CPython and an in-file C3/lookup model over all small class DAGs',
+            'All class DAGs up to the bound with sampled placements of attributes/methods/classmethods/staticmethods are built on the real interpreter; every instance/class read, write/delete visibility, isinstance and MRO acceptance/rejection is compared with CPython and a second C3 model.',
+            'Hierarchies bounded (n<=4 exhaustive quick, n=5 exhaustive / n=6 sampled thorough); metaclasses, super(), property, __slots__ not covered.', '6/C16'),
 }
 
 PENDING_REASON = 'check not built yet in this round (the design in DESIGN.md applies; nothing is claimed until the monitor exists and is silent on the unchanged tree)'
